@@ -1,4 +1,5 @@
 import Rare.Model.C02
+import Rare.Base.GoInt
 /-!
 Model of the default output of `rare filter` (cmd/filter.go, no `-e`): one `fmt.Println` of
 `color.WrapIndices(match.Line, …)` per match, and of what "colour codes removed" means
@@ -54,5 +55,56 @@ def visibleRun (esc : UInt8) : Bool → Bytes → Bytes × Bool
 
 /-- an output "with colour codes removed", byte level -/
 def visible (b : Bytes) : Bytes := (visibleRun 0x1b false b).1
+
+/-! ### the whole output loop of `filterFunction`: `--line` prefix, `--extract`, `--num` -/
+
+/-- `color.Wrap(color, s)`: the reset is not repeated when `s` already ends with it -/
+def wrapE (enabled : Bool) (color reset s : Bytes) : List Seg :=
+  if !enabled then [.text s]
+  else
+    [.code color, .text s] ++
+      (if s.length < reset.length ∨ s.drop (s.length - reset.length) ≠ reset then [.code reset] else [])
+
+/-- an `extractor.Match` as `filter` uses it -/
+structure FMatch where
+  source : Bytes
+  lineNum : Nat
+  line : Bytes
+  indices : List Int
+  extracted : Bytes
+
+/-- the palette `filterFunction` needs: group colours, reset, colour of the source name, colour of the line number -/
+structure Palette where
+  groups : List Bytes
+  reset : Bytes
+  src : Bytes
+  num : Bytes
+
+/-- `fmt.Printf("%s %s: ", color.Wrap(BrightGreen, match.Source), color.Wrapi(BrightYellow, match.LineNumber))` -/
+def filterPrefix (enabled : Bool) (p : Palette) (m : FMatch) : List Seg :=
+  wrapE enabled p.src p.reset m.source ++ [.text [0x20]] ++ wrapE enabled p.num p.reset (itoa m.lineNum) ++
+    [.text [0x3a, 0x20]]
+
+/-- the body of the loop for one match -/
+def filterOne (enabled writeLines custom : Bool) (p : Palette) (m : FMatch) : Except String (List Seg) :=
+  let pre := if writeLines then filterPrefix enabled p m else []
+  if !custom then
+    match filterLine enabled p.groups p.reset m.line m.indices with
+    | .ok segs => .ok (pre ++ segs)
+    | .error e => .error e
+  else .ok (pre ++ [.text m.extracted, .text [0x0a]])
+
+/-- the `OUTER_LOOP` of `filterFunction`: `num` = `numLineLimit` (`0` = no limit), last argument = `readLines` -/
+def filterAll (enabled writeLines custom : Bool) (p : Palette) (num : Nat) : List FMatch → Nat → Except String (List Seg)
+  | [], _ => .ok []
+  | m :: ms, readLines =>
+    match filterOne enabled writeLines custom p m with
+    | .error e => .error e
+    | .ok segs =>
+      if num > 0 ∧ readLines + 1 ≥ num then .ok segs
+      else
+        match filterAll enabled writeLines custom p num ms (readLines + 1) with
+        | .ok rest => .ok (segs ++ rest)
+        | .error e => .error e
 
 end Rare.C02
